@@ -2,6 +2,6 @@ CONSTANTS Feat = {0, 1, 2, 4, 8}  VersNr = 9  CompId = 617  MaxOwed = 1  MaxT = 
 CONSTANT RxAlphabet <- MCRxSmall
 SPECIFICATION Spec
 INVARIANTS TypeOK NeverAnswerRejects UnknownGetsUnknownRsp MalformedGetsUnknownRsp VersionOnce Satisfiable
-PROPERTIES TimeoutOnlyWhenPending
+PROPERTIES TimeoutOnlyWhenPending OnlyItsAnswerStopsTheTimer OtherAnswerKeepsTheTimer
 CONSTRAINT Bound
 CHECK_DEADLOCK FALSE
